@@ -35,7 +35,10 @@ Positions == TermPositions \cup ScopePositions
 PairTermPositions == {"fact_map_key_value", "fact_map_key_nested_value", "fact_map_two_entries", "fact_two_terms",
                       "rule_map_key_value", "rule_head_and_expr", "check_map_key_value", "check_expr_map_key_value",
                       "policy_map_key_value", "policy_expr_map_key_value", "check_nested_closures"}
-PairScopePositions == {"check_term_and_scope", "policy_term_and_scope", "rule_term_and_scope"}
+PairScopePositions == {"check_term_and_scope", "policy_term_and_scope", "rule_term_and_scope",
+                       \* the SAME name used for a term parameter and for a scope parameter of one item: two holes all the same
+                       "check_same_name_term_and_scope", "policy_same_name_term_and_scope", "rule_same_name_term_and_scope"}
+SameName(pos) == pos \in {"check_same_name_term_and_scope", "policy_same_name_term_and_scope", "rule_same_name_term_and_scope"}
 PairPositions == PairTermPositions \cup PairScopePositions
 KeyFirst(pos) == pos \in {"fact_map_key_value", "fact_map_key_nested_value", "fact_map_two_entries", "rule_map_key_value",
                           "check_map_key_value", "check_expr_map_key_value", "policy_map_key_value", "policy_expr_map_key_value"}
@@ -85,6 +88,9 @@ Template(pos) ==
       [] pos = "check_term_and_scope" -> "check if g({p}) trusting {q}"
       [] pos = "policy_term_and_scope" -> "allow if g({p}) trusting {q}"
       [] pos = "rule_term_and_scope" -> "r({p}) <- f($x) trusting {q}"
+      [] pos = "check_same_name_term_and_scope" -> "check if g({p}) trusting {p}"
+      [] pos = "policy_same_name_term_and_scope" -> "allow if g({p}) trusting {p}"
+      [] pos = "rule_same_name_term_and_scope" -> "r({p}) <- f($x) trusting {p}"
 
 TermValues == {"int", "string", "string_with_datalog", "string_with_quote_newline", "bool", "date", "bytes", "set", "array", "map", "null"}
 ScopeValues == {"key_ed25519", "key_secp256r1"}
@@ -92,7 +98,8 @@ ScopeValues == {"key_ed25519", "key_secp256r1"}
 \* where the item lives
 Holder(pos) == IF pos \in {"policy_body_term", "policy_expr_value", "policy_expr_in_set", "policy_scope",
                              "policy_two_alternatives", "policy_scope_two_alternatives",
-                             "policy_map_key_value", "policy_expr_map_key_value", "policy_term_and_scope"} THEN "authorizer" ELSE "block"
+                             "policy_map_key_value", "policy_expr_map_key_value", "policy_term_and_scope",
+                             "policy_same_name_term_and_scope"} THEN "authorizer" ELSE "block"
 
 \* values that may stand at a position
 Fits(pos, v) ==
@@ -143,5 +150,6 @@ UnboundNeverAdded == (~HoleBound) => Outcome \in {"refused", "set-error"}
 
 Export ==
     (ExportOn /\ InUniverse) =>
-        PrintT(<<"PARAM", ToJson([c |-> c, holder |-> Holder(c.pos), src |-> Template(c.pos), outcome |-> Outcome])>>)
+        PrintT(<<"PARAM", ToJson([c |-> c, holder |-> Holder(c.pos), src |-> Template(c.pos), name2 |-> IF c.pos \in PairPositions /\ SameName(c.pos) THEN "p" ELSE "q",
+                                          outcome |-> Outcome])>>)
 =============================================================================
